@@ -58,6 +58,9 @@ def spidVal : Option (Int × ℚ) :=
   match runSpid x1e9 x1_5 ((c1 : SF) / c3) xMinSub Spid.init (pre ++ [.ok (some last)]) with
   | .ok s => (match Spid.get s with | .ok (some d) => some (d.time, d.value.val) | _ => none)
   | .error _ => none
+/-- both show `1733333376` at `3.7 s` (kernel computation; the agreement itself is `pid_eq_composed_binary32`) -/
+theorem pidVal_eq : pidVal = some (3700000000, 1733333376) := by decide +kernel
+theorem spidVal_eq : spidVal = some (3700000000, 1733333376) := by decide +kernel
 end Binary32Examples
 
 end Rrtk.Thm.C04
